@@ -211,7 +211,10 @@ impl Report {
         let _ = std::fs::create_dir_all(&evdir);
         let evpath = evdir.join(format!("{}.json", self.property));
         std::fs::write(&evpath, serde_json::to_string_pretty(&ev).unwrap()).expect("cannot write evidence");
-        if !self.machinery_errors.is_empty() {
+        if real.is_empty() && crate::choicesat::past_deadline() {
+            self.machinery_errors.push("wall-clock budget exhausted before the exploration was complete (CVX_BUDGET_S): no verdict".into());
+        }
+        if !self.machinery_errors.is_empty() && real.is_empty() {
             for m in &self.machinery_errors {
                 eprintln!("MACHINERY-ERROR: {}", m);
             }
